@@ -23,6 +23,7 @@ use roto::{List, NoCtx, Package, RotoString, Runtime, TypedFunc, Val, library};
 use vcore::{Cfg, Check, Cx, Finding, Meta, SUB_SETUP, Tier, Value, Violation, json};
 
 mod probes;
+mod stack;
 
 const SCRIPT: &str = "\
 const KT: Tr = mk(900);
@@ -570,7 +571,7 @@ impl Check for C12 {
         "C12"
     }
     fn units(&self, cfg: &Cfg) -> usize {
-        all_programs(cfg.tier).len().div_ceil(PER_UNIT) + 1
+        all_programs(cfg.tier).len().div_ceil(PER_UNIT) + 2
     }
     fn case_timeout_s(&self, cfg: &Cfg) -> f64 {
         cfg.tier.pick(240.0, 600.0)
@@ -583,6 +584,33 @@ impl Check for C12 {
         let n_a = progs.len().div_ceil(PER_UNIT);
         if unit == n_a {
             probes::run(cx);
+            return;
+        }
+        if unit == n_a + 1 {
+            // Part C: stack discipline on spawned threads (stack.rs)
+            if !cx.case(SUB_SETUP) {
+                return;
+            }
+            for (i, sc) in stack::scenarios().into_iter().enumerate() {
+                if !cx.case(i as u64) {
+                    continue;
+                }
+                cx.states(1);
+                cx.transitions(1);
+                match stack::run(sc) {
+                    Ok(what) => {
+                        cx.count(&format!("part_c:{}", what.split(" (").next().unwrap_or(&what)), 1);
+                        cx.outcome(vcore::util::fnv_str(&what));
+                    }
+                    Err(e) => cx.violation(
+                        "stack-discipline",
+                        i as u64,
+                        json!({"part": "C", "scenario": format!("{sc:?}"), "frame_bytes": sc.frame_bytes(), "caller_stack_bytes": 2 << 20}),
+                        json!("the call stays inside the caller's stack or dies on its guard page"),
+                        json!(e),
+                    ),
+                }
+            }
             return;
         }
         if !cx.case(SUB_SETUP) {
@@ -630,6 +658,11 @@ impl Check for C12 {
         if unit == n_a {
             return probes::describe(sub);
         }
+        if unit == n_a + 1 {
+            let sc = stack::scenarios();
+            return json!({"part": "C", "scenario": sc.get(sub as usize).map(|s| format!("{s:?}")),
+                          "frame_bytes": sc.get(sub as usize).map(|s| s.frame_bytes())});
+        }
         if sub == SUB_SETUP {
             return json!({"phase": "setup"});
         }
@@ -640,7 +673,7 @@ impl Check for C12 {
     }
     fn meta(&self, cfg: &Cfg) -> Meta {
         Meta {
-            rule: "Part A: all programs of the stated shapes over the operation menu (threads symmetric), each under all schedules up to the preemption bound; schedule points inside scripts (host call between reads and writes of locals / records / strings / tracked values / a shared list), at the type-registry lock and at list locks; non-trivial = more than one schedule. Part B: every (entry point that accepts user state) x (capture class) probe type-checked by rustc; wrongly accepted probes are run under the scheduler to exhibit the race".into(),
+            rule: "Part A: all programs of the stated shapes over the operation menu (threads symmetric), each under all schedules up to the preemption bound; schedule points inside scripts (host call between reads and writes of locals / records / strings / tracked values / a shared list), at the type-registry lock and at list locks; non-trivial = more than one schedule. Part B: every (entry point that accepts user state) x (capture class) probe type-checked by rustc; wrongly accepted probes are run under the scheduler to exhibit the race. Part C: stack discipline on spawned threads: one call / a recursion of a script function with a 32 KiB .. 16 MiB frame on a 2 MiB thread next to four canary-filled thread stacks, in a forked copy of the worker: the call stays inside the caller's stack mapping or dies on the guard page".into(),
             assumptions: vec![
                 "interleavings INSIDE compiled code between two schedule points are not explored: generated code only touches its own stack frame and read-only constants (argument from the code)".into(),
                 "sequentially consistent interleavings only (no weak-memory effects)".into(),
